@@ -404,6 +404,8 @@ class Project:
         if isinstance(expr, ast.BinOp):
             a = self.eval_const(mi, expr.left, _depth)
             b = self.eval_const(mi, expr.right, _depth)
+            if isinstance(expr.op, ast.Add) and ((isinstance(a, str) and isinstance(b, str)) or (isinstance(a, bytes) and isinstance(b, bytes))):
+                return a + b
             if isinstance(a, (int, float)) and isinstance(b, (int, float)):
                 if isinstance(expr.op, ast.Mult):
                     return a * b
